@@ -56,9 +56,12 @@ def sensitivity_md():
             x = r["patch"].replace("patch_", "").replace(".diff", "")
             v = meta.get((r["property"], x), {})
             needs = (v.get("needs") or "")[:220].replace("|", "\\|").replace("\n", " ")
+            if v.get("superseded"):
+                out.append("| %s | %s | %s | not counted: superseded by %s (its demo passes with the patch on the current tree) | %s | - |" % (r["property"], x, needs, v["superseded"]["by"].split(" ")[0], "caught" if v.get("detected_at_first_attempt") else "missed"))
+                continue
             out.append("| %s | %s | %s | %s | %s | %s |" % (r["property"], x, needs, "**caught**" if r.get("caught") else ("missed" if r.get("status") == "ok" else r.get("status")),
                                                        "caught" if v.get("detected_at_first_attempt") else "missed", (v.get("strengthening") or "-").replace("|", "\\|")))
-        ok = [r for r in res if r.get("status") == "ok"]
+        ok = [r for r in res if r.get("status") == "ok" and not meta.get((r["property"], r["patch"].replace("patch_", "").replace(".diff", "")), {}).get("superseded")]
         first = len([1 for r in ok if meta.get((r["property"], r["patch"].replace("patch_", "").replace(".diff", "")), {}).get("detected_at_first_attempt")])
         out.append("\n%d confirmed changes: %d caught at the first attempt, %d after strengthening the check they belong to, %d caught now." % (len(ok), first, len([r for r in ok if r.get("caught")]) - first, len([r for r in ok if r.get("caught")])))
     return "\n".join(out)
